@@ -6,7 +6,7 @@ import Chrono.Proofs.TextFormsFin
 import Chrono.Props.C04
 namespace Chrono.Proofs.TextForms
 open Chrono Chrono.M Chrono.M.Scan Chrono.M.Format Chrono.M.TextForms
-open Chrono.Proofs Chrono.Proofs.RenderScan Chrono.Spec Chrono.Spec.Text Chrono.Extracted
+open Chrono.Proofs Chrono.Proofs.RenderScan Chrono.Spec Chrono.Spec.Text Chrono.Spec.Fields Chrono.Proofs.ParsedRes Chrono.Extracted
 
 /-! ### writers -/
 
